@@ -2,10 +2,10 @@ package main
 
 import (
 	"fmt"
-	"go/ast"
-	"go/types"
-	"sort"
+	"os"
+	"strings"
 
+	"golang.org/x/tools/go/ssa"
 	"verif/checker/core"
 )
 
@@ -14,34 +14,38 @@ func main() {
 	if err != nil {
 		panic(err)
 	}
-	for _, short := range []string{"decoder", "encoder"} {
-		for _, fd := range p.Funcs(short) {
-			if fd.Body == nil {
-				continue
+	g := p.VTA()
+	target := os.Args[1]
+	var roots []*ssa.Function
+	for _, n := range os.Args[2:] {
+		roots = append(roots, p.SSAFunc("json", n))
+	}
+	prev := map[*ssa.Function]*ssa.Function{}
+	var q []*ssa.Function
+	for _, r := range roots {
+		prev[r] = r
+		q = append(q, r)
+	}
+	for len(q) > 0 {
+		f := q[0]
+		q = q[1:]
+		if strings.Contains(f.String(), target) {
+			for x := f; ; x = prev[x] {
+				fmt.Println(x.String())
+				if prev[x] == x {
+					break
+				}
 			}
-			info := p.Info(fd)
-			ast.Inspect(fd.Body, func(n ast.Node) bool {
-				sw, ok := n.(*ast.SwitchStmt)
-				if !ok || sw.Tag == nil {
-					return true
+			return
+		}
+		if n := g.Nodes[f]; n != nil {
+			for _, e := range n.Out {
+				if _, ok := prev[e.Callee.Func]; !ok {
+					prev[e.Callee.Func] = f
+					q = append(q, e.Callee.Func)
 				}
-				tv := info.Types[sw.Tag]
-				b, ok := tv.Type.Underlying().(*types.Basic)
-				if !ok || b.Kind() != types.Uint8 {
-					return true
-				}
-				bs, _ := core.EvalByteSwitch(info, sw)
-				if bs == nil {
-					return true
-				}
-				var labs []int
-				for _, l := range bs.Labels {
-					labs = append(labs, l...)
-				}
-				sort.Ints(labs)
-				fmt.Printf("%-55s %-28s def=%v tag=%-22s %s\n", p.FuncName(fd), p.Pos(sw.Pos()), bs.Default >= 0, core.Src(p.Fset, sw.Tag), core.FmtBytes(labs))
-				return true
-			})
+			}
 		}
 	}
+	fmt.Println("unreachable")
 }
